@@ -4,6 +4,7 @@ import (
 	"verif/internal/kinds"
 	"verif/internal/load"
 	"verif/internal/report"
+	"verif/internal/small"
 	"verif/internal/visitors"
 )
 
@@ -27,7 +28,7 @@ func (c *Ctx) visitorRule(rule string, fn ruleFn) {
 }
 
 func init() {
-	for _, id := range []string{"C01", "C02", "C03", "C04", "C05", "C06", "C07", "C08", "C09", "C10", "C11", "C13", "C14", "C17", "C18"} {
+	for _, id := range []string{"C01", "C02", "C03", "C04", "C05", "C06", "C07", "C08", "C09", "C10", "C11", "C13", "C14", "C17"} {
 		notApplicable[id] = "check not built yet at this commit (see DESIGN.md §7 build order); no claim is made"
 	}
 	properties["C12"] = &Property{
@@ -106,6 +107,30 @@ func init() {
 			})
 			if p, tb, ok := c.RepoProgram(false); ok {
 				c.Add(visitors.DumpHelpers(p, tb))
+			}
+		},
+	}
+
+	properties["C18"] = &Property{
+		Level:     "proof",
+		LevelText: "Inductive proof by abstract interpretation: Get of both pools is executed symbolically on every path over the zone (difference-bound) domain on {off, len(block)} under the invariant 0 <= off <= len(block), len(block) >= 1; each feasible path must return &block[i] with off_entry <= i < off_exit <= len(block) (any in-range i for a freshly made block) and preserve the invariant; the nil path must be infeasible; only the constructor and Get may touch block/off anywhere in the module; every constructor call passes a positive constant. Distinctness for all request counts and block sizes follows by induction on calls (the pair (block identity, index) strictly increases).",
+		LevelNote: "Trusted: go/types, the 3-variable zone domain implementation (closure by Floyd-Warshall; exact for integer difference constraints) and the analyser's small statement language (anything outside it is undecided and fails). Go's make returns fresh storage.",
+		Technique: "static analysis: typestate/abstract interpretation over a zone domain with who-touches check across the module",
+		Engine:    "small",
+		Explanation: "pool-typestate on pkg/token.Pool and pkg/position.Pool: constructor establishes off=0, block=make([]T,blockSize); Get paths enumerated and executed symbolically; obligations per path: bounds, no re-issue (index >= entry offset unless the block is fresh), offset advances beyond the returned index, invariant preserved, nil return infeasible for len(block) >= 1. who-touches: no other function in the module reads or writes Pool.block/Pool.off; no Pool literal outside the constructor; all NewPool call sites pass a positive constant.",
+		Assumptions: []string{"block size >= 1 (the property's own precondition; all call sites in the module are checked to pass a positive constant)"},
+		TrustedBase: append([]string{"zone domain over {0, off, len(block)} in internal/small/pool.go"}, baseTrusted...),
+		Floors: []report.Floor{
+			{Rule: "pool-typestate", What: "pools", Min: 2},
+			{Rule: "pool-typestate", What: "get-paths", Min: 6},
+			{Rule: "pool-typestate", What: "ctor-calls", Min: 3},
+		},
+		Run: func(c *Ctx) {
+			c.Fixture("mini", "pool-typestate", false, func(p *load.Program, tb *kinds.Table) *report.RuleResult {
+				return small.PoolRule(p, "pkg/token", "pkg/badpool1", "pkg/badpool2", "pkg/badpool3", "pkg/badpool4")
+			})
+			if p, _, ok := c.RepoProgram(false); ok {
+				c.Add(small.PoolRule(p, "pkg/token", "pkg/position"))
 			}
 		},
 	}
